@@ -228,6 +228,7 @@ def run_tag(prog, tier, repo):
                     cfg = cfg or cfg_of(b)
                     r, _ = operand_root(b, size_op)
                     edges = []
+                    narrowed_cmp = []
                     for bj, bl2 in enumerate(b.blocks):
                         t = bl2.term
                         if t[0] == 'switch' and t[1][0] in ('c', 'm'):
@@ -241,6 +242,8 @@ def run_tag(prog, tier, repo):
                                         and y[1].i is not None:
                                     true_e = [(bj, t[3])] + [(bj, tg) for v, tg in t[2] if v != 0]
                                     false_e = [(bj, tg) for v, tg in t[2] if v == 0]
+                                    if _narrowed(b, x[1].local):
+                                        narrowed_cmp.append(bl2.term[4])
                                     if op_ in ('Le', 'Lt'):
                                         bound = y[1].i if op_ == 'Le' else y[1].i - 1
                                         if bound <= cap:
@@ -277,11 +280,49 @@ def run_tag(prog, tier, repo):
                         continue
                     if edges and cfg.edges_dominate(edges, bi):
                         res.ok(key, b.loc(st[3]), f'dominated by the true edge of size <= {cap}')
+                        # (3b) the test must look at the whole length: a length narrowed to a smaller integer type before the
+                        # comparison wraps around (256 -> 0), so a long string passes the test and is stored as its prefix
+                        fkey = f'inline-size-faithful:{b.name}'
+                        if narrowed_cmp:
+                            res.violation(fkey, b.loc(narrowed_cmp[0]), f'{b.name} decides between the inline and the table form by '
+                                          f'comparing a length that was first narrowed to a smaller integer type: a string of 256 + k '
+                                          f'bytes (k <= {cap}) passes the test, is stored inline as its first k bytes and compares equal '
+                                          f'to that prefix - the handle no longer reads back the string it was made from')
+                        else:
+                            res.ok(fkey, b.loc(st[3]), 'the size test compares the untruncated length')
                     else:
                         res.violation(key, b.loc(st[3]), f'{b.name} builds an inline handle whose size is not proven <= {cap} '
                                       f'by a dominating comparison: longer text would overwrite the tag byte')
     res.floor('inline handle constructions', n_inline, 6)
     return [res]
+
+
+_WIDTH = {'u8': 8, 'i8': 8, 'u16': 16, 'i16': 16, 'u32': 32, 'i32': 32, 'u64': 64, 'i64': 64, 'usize': 64, 'isize': 64,
+          'u128': 128, 'i128': 128}
+
+
+def _narrowed(b, local):
+    """Does the value of `local` come (through copies) out of an integer cast to a narrower type?"""
+    seen = set()
+    for _ in range(32):
+        if local in seen or 1 <= local <= b.nargs:
+            return False
+        seen.add(local)
+        sd = single_def(b, local)
+        if sd is None or sd[1] == 'term':
+            return False
+        rv = sd[2]
+        if rv[0] == 'cast' and rv[2][0] in ('c', 'm'):
+            src = b.locals[rv[2][1].local].s
+            dst = rv[3].s
+            if src in _WIDTH and dst in _WIDTH and _WIDTH[dst] < _WIDTH[src]:
+                return True
+            local = rv[2][1].local
+        elif rv[0] == 'use' and rv[1][0] in ('c', 'm') and not rv[1][1].proj:
+            local = rv[1][1].local
+        else:
+            return False
+    return False
 
 
 def _slot_assignments(prog, b, slot):
